@@ -1031,9 +1031,10 @@ Proof.
 Qed.
 
 (* ------------------------------------------------------------------ zero jobs *)
-(* [deadlock_free] needs at least one job.  With the semaphore at 0 the faithful model
-   gets stuck right after the first task is created: nothing can ever start.
-   (--num-processes 0 on the command line: mk_cfg gives c_jobs = min 0 _ = 0.) *)
+(* [deadlock_free] needs at least one job.  This lemma records why the option layer has to
+   refuse --num-processes 0 (Sched.parse_jobs; Proofs.cli_never_stuck): with the semaphore at 0
+   the transition system would be stuck right after the first task is created.  The
+   configuration below is not one an accepted command line produces. *)
 Theorem zero_jobs_stuck :
   exists c ls s, c = mk_cfg [true] 1 0 0%Z /\ c_jobs c = 0 /\ run c (init c) ls = Some s /\
                  terminal c s = false /\ forall l, exec c s l = None.
@@ -1046,5 +1047,4 @@ Proof.
   - unfold exec. simpl. rewrite andb_false_r. reflexivity.
 Qed.
 
-Example one_job_guard_satisfiable : exists c, 1 <= c_jobs c /\ nrun c = 2.
-Proof. exists (mkcfg [true; false] 1 0%Z false). split; reflexivity. Qed.
+
